@@ -2,6 +2,7 @@ package scen
 
 import (
 	"bytes"
+	"io"
 	"compress/flate"
 	"compress/zlib"
 	"fmt"
@@ -192,7 +193,9 @@ func runC21(c *Ctx) {
 		narrowed = true
 	}
 	cfg.Byz.CertCompAlg = alg
-	cfg.Byz.CertCompress = compress
+	msgLen := -1
+	cfg.Byz.CertCompress = func(a uint16, m []byte) []byte { msgLen = len(m); return compress(a, m) }
+	var truncated []byte
 	switch fault {
 	case "len-short":
 		cfg.Byz.CertCompLenDelta = -delta
@@ -203,7 +206,8 @@ func runC21(c *Ctx) {
 			if len(s) < 2 {
 				return s
 			}
-			return s[:1+fpos%(len(s)-1)]
+			truncated = append([]byte(nil), s[:1+fpos%(len(s)-1)]...)
+			return truncated
 		}
 	case "flip":
 		cfg.Byz.CertCompCorrupt = func(s []byte) []byte {
@@ -308,6 +312,16 @@ func runC21(c *Ctx) {
 			c.Probe("rejected-flip")
 		}
 	default:
+		if fault == "truncate" && truncated != nil && msgLen >= 0 && decodedLen(alg, truncated) >= msgLen {
+			// only trailing framing was cut off (e.g. brotli's final empty meta-block): every byte of the
+			// message still comes out, so nothing the statement speaks about has changed; the claim
+			// that remains is "never another certificate message"
+			if o.CDone && (len(o.CState.PeerCertificates) == 0 || !bytes.Equal(o.CState.PeerCertificates[0].Raw, want[0])) {
+				c.Violate(fmt.Sprintf("corrupted-stream-yields-other-certificate alg=%d", alg), "%s", c.R.Class)
+			}
+			c.Probe("truncation-of-framing-only")
+			break
+		}
 		if fault == "trailing" && alg != 3 {
 			// zlib and brotli readers stop at the end of the first stream: the declared length is
 			// met and trailing bytes are not part of the compressed value's output; no claim
@@ -542,4 +556,31 @@ func firstClassicalShare(of *Offer) uint16 {
 		}
 	}
 	return 0
+}
+
+// decodedLen decompresses as much of a (possibly truncated) stream as an independent decoder of
+// the same format yields and returns the number of bytes that came out.
+func decodedLen(alg uint16, stream []byte) int {
+	var r io.Reader
+	switch alg {
+	case 1:
+		zr, err := zlib.NewReader(bytes.NewReader(stream))
+		if err != nil {
+			return 0
+		}
+		r = zr
+	case 2:
+		r = brotli.NewReader(bytes.NewReader(stream))
+	case 3:
+		zr, err := zstd.NewReader(bytes.NewReader(stream), zstd.WithDecoderConcurrency(1))
+		if err != nil {
+			return 0
+		}
+		defer zr.Close()
+		r = zr
+	default:
+		return 0
+	}
+	n, _ := io.Copy(io.Discard, r)
+	return int(n)
 }
